@@ -10,5 +10,12 @@ CONSTANTS
   Dev_NdValIndex = FALSE
   Dev_CsIndex = FALSE
   Dev_SizeHint = FALSE
+  Dev_RsrcRecursion = TRUE
+  Dev_FirstDepth = TRUE
+  Dev_KidsDepth = TRUE
+  StackFrames = 1000
+  StackFramesMax = 65536
+  OutlineDepthLimit = 256
+  NameTreeDepthLimit = 256
 POSTCONDITION Consumed
 CHECK_DEADLOCK FALSE
